@@ -43,10 +43,14 @@ fn dec(x: &BigDecimal) -> Dec {
 struct Out {
     checks: u64,
     violations: Vec<String>,
+    per_site: std::collections::BTreeMap<String, usize>,
 }
 impl Out {
     fn bad(&mut self, site: &str, case: String, expected: String, observed: String) {
-        if self.violations.len() < 40 {
+        // at most 6 recorded cases per site (so that every failing site is reported and can be replayed)
+        let n = self.per_site.entry(site.to_string()).or_insert(0);
+        *n += 1;
+        if *n <= 6 && self.violations.len() < 200 {
             let esc = |s: &str| s.replace('\\', "\\\\").replace('"', "\\\"");
             self.violations.push(format!("{{\"site\":\"{}\",\"case\":\"{}\",\"expected\":\"{}\",\"observed\":\"{}\"}}", esc(site), esc(&case), esc(&expected), esc(&observed)));
         }
@@ -118,7 +122,7 @@ fn main() {
     let padding: i128 = args[5].parse().unwrap();
     let full = args.get(6).map(|s| s == "full").unwrap_or(false);
     std::panic::set_hook(Box::new(|_| {}));
-    let mut o = Out { checks: 0, violations: vec![] };
+    let mut o = Out { checks: 0, violations: vec![], per_site: Default::default() };
     let explicit = Context::new(NonZeroU64::new(p).unwrap(), rm(mode));
 
     // 1. Context::default() reports the configured values
